@@ -811,8 +811,9 @@ fn run_gseq(plan: Vec<GOp>) -> String {
                 to(&log, from, e)
             }
             GOp::Dbg(e) => {
+                // (`dbg!` captures with Debug by default; the recorder and the `idge` filter read `id` as a number)
                 let id = e;
-                emit::dbg!(id);
+                emit::dbg!(#[emit::as_value] id);
                 to(&log, from, e)
             }
             GOp::Direct(e, l) => {
